@@ -873,6 +873,11 @@ fn codegen_(
                     },
                 ))
             } else {
+                // Reject a redefinition before compiling the body: compiling it with an
+                // inline of the same name in scope never terminates when the body uses `com`.
+                fail_if_present(defun.loc.clone(), &compiler.inlines, &defun.name, ())?;
+                fail_if_present(defun.loc.clone(), &compiler.defuns, &defun.name, ())?;
+
                 let updated_opts = opts
                     .set_code_generator(compiler.clone())
                     .set_in_defun(true)
@@ -1629,6 +1634,28 @@ fn finalize_env(
 }
 
 fn dummy_functions(compiler: &PrimaryCodegen) -> Result<PrimaryCodegen, CompileErr> {
+    // A name defined both as a defun and as a defun-inline is a redefinition.  Find it
+    // before any function body is compiled: with an inline of the same name in scope,
+    // compiling a body that uses `com` (e.g. via `if`) expands that inline from
+    // finalize_env_ without end.
+    let mut defined_inline: HashMap<Vec<u8>, bool> = HashMap::new();
+    for form in compiler.to_process.iter() {
+        if let HelperForm::Defun(inline, defun) = form {
+            if let Some(was_inline) = defined_inline.get(&defun.name) {
+                if was_inline != inline {
+                    return Err(CompileErr(
+                        defun.loc.clone(),
+                        format!(
+                            "Cannot redefine {}",
+                            SExp::Atom(defun.loc.clone(), defun.name.clone())
+                        ),
+                    ));
+                }
+            }
+            defined_inline.insert(defun.name.clone(), *inline);
+        }
+    }
+
     fold_m(
         &|compiler: &PrimaryCodegen, form: &HelperForm| match form {
             HelperForm::Defun(false, defun) => {
